@@ -14,6 +14,15 @@ def valid_queries(rng, n):
         name = b".".join(labs + [b"t01", b"org"])[:250]
         out.append(P.query(rng.randrange(1, 65536), name, rng.choice([P.T_NULL, P.T_TXT, P.T_MX, P.T_CNAME, P.T_A, P.T_SRV, P.T_PRIVATE, P.T_NS]),
                            edns=rng.random() < 0.5))
+    # names around the longest legal one (253 characters = 255 bytes on the wire), built by hand (labels of legal size)
+    for total in (251, 252, 253, 254, 255, 256, 257, 260):
+        rest, labs = total, []
+        while rest > 0:
+            k = min(63, rest)
+            labs.append(bytes(rng.choice(b"abcxyz019") for _ in range(k)))
+            rest -= k + 1
+        wire = b"".join(bytes([len(l)]) + l for l in labs) + b"\0"
+        out.append(struct.pack(">HHHHHH", rng.randrange(1, 65536), 0x0100, 1, 0, 0, 0) + wire + struct.pack(">HH", rng.choice([10, 16, 1]), 1))
     return out
 
 
